@@ -14,7 +14,8 @@ import (
 
 // Command lattice: equal, parent, child, sibling, textual-prefix-only, top.
 // /σ and /ς are distinct valid commands whose only letters are case-fold partners of each other.
-var c02Lattice = []string{"/", "/a", "/a/b", "/a/b/c", "/a/c", "/ab", "/ab/c", "/b", "/σ", "/ς"}
+// /a/.., /a/./b and /a//b are valid commands whose segments "..", "." and "" are ordinary opaque segments.
+var c02Lattice = []string{"/", "/a", "/a/b", "/a/b/c", "/a/c", "/ab", "/ab/c", "/b", "/σ", "/ς", "/a/..", "/a/./b", "/a//b"}
 
 // sliceLoader resolves proof CIDs positionally by linear search.
 type sliceLoader struct {
@@ -48,9 +49,9 @@ func c02Sub(name, dir string, qn, tn int) *engine.Sub {
 	return &engine.Sub{
 		Name:   name,
 		Repeat: true,
-		Rule:   "every assignment of lattice commands {/, /a, /a/b, /a/b/c, /a/c, /ab, /ab/c, /b, /σ, /ς (two distinct lower-case commands that only differ by case-fold partners)} to the invocation and to each link of a principal-aligned chain; non-trivial = at most one link fails the reference cover relation",
+		Rule:   "every assignment of lattice commands {/, /a, /a/b, /a/b/c, /a/c, /ab, /ab/c, /b, /σ, /ς (two distinct lower-case commands that only differ by case-fold partners), /a/.., /a/./b, /a//b (dot and empty segments are ordinary segments, not path navigation)} to the invocation and to each link of a principal-aligned chain; non-trivial = at most one link fails the reference cover relation",
 		Bound: func(t string) string {
-			return fmt.Sprintf("chains of 1..%d links, 8 commands per position", tierN(t, qn, tn))
+			return fmt.Sprintf("chains of 1..%d links, %d commands per position", tierN(t, qn, tn), len(c02Lattice))
 		},
 		Setup: func(string) error { chainInit(); return nil },
 		Gen: func(tier string, emit func(any) bool) {
@@ -148,7 +149,7 @@ func c02SeqSub(dir string) *engine.Sub {
 	return &engine.Sub{
 		Name:  name,
 		Rule:  "one chain of 1..2 delegation OBJECTS (every assignment of lattice commands) serves a sequence of three invocations (every triple of lattice commands, each a fresh invocation token, checked with both APIs): every verdict must be the reference's for that invocation, whatever was asked of the same delegations before (an allowed check, a refused one, the same refused one again); non-trivial = sequences with differing verdicts",
-		Bound: func(string) string { return "10 + 100 chains x 1000 command triples" },
+		Bound: func(string) string { L := len(c02Lattice); return fmt.Sprintf("%d + %d chains x %d command triples", L, L*L, L*L*L) },
 		Setup: func(string) error { chainInit(); return nil },
 		Gen: func(tier string, emit func(any) bool) {
 			L := len(c02Lattice)
